@@ -14,6 +14,13 @@
      extract(): tag == 0 -> return *v (heap pointer) else the address of the slot itself (in place)
   potassco/program_opts/value_store.h
      enum { call_extract = 0, vcall_clone = 1, vcall_destroy = 2, vcall_typeid = 3 }
+     value_cast(const ValueStore& v, const T* = 0) { if (v.type() == typeid(T)) { return *static_cast<const T*>(...v.extract_raw()...); } throw bad_value_cast(); }
+     value_cast(const ValueStore* v, const T* = 0) { if (v->type() == typeid(T)) { return static_cast<const T*>(...v->extract_raw()...); } return 0; }
+                               the type test of BOTH checked forms is the comparison of the two std::type_info OBJECTS with operator==
+                               (either operand order; whitespace free) - the model's `cast` compares type tags (hty (slot s i) =? ty), i.e. type
+                               identity.  Anything else in the condition (a helper, a comparison of type_info::name() strings, hash_code, ...) is a
+                               problem: distinct types can share a name (internal-linkage types of the same spelling in two translation units).
+                               The non-const forms must forward to the const forms, const ValueStore::type() must ask the vtable's typeid slot.
   potassco/program_opts/detail/refcountable.h
      RefCountable() : refCount_(1)
      <type> refCount_;                                  declared type of the counter -> refcount_min / refcount_max / refcount_overflow_undefined
@@ -265,6 +272,46 @@ def generate(repo):
             probs.append('ValueStore vtable slot numbering changed: %r (tables are initialised in the order extract-tag, clone, destroy, typeinfo)' % (C['slots'],))
     else:
         probs.append('anchor not found: ValueStore enum { call_extract, vcall_clone, vcall_destroy, vcall_typeid }')
+    # checked typed access: the test is identity of the two type_info objects, in both forms
+    ws = r'\s*'
+    ex_ref = r'\*' + ws + r'static_cast' + ws + r'<' + ws + r'const\s+T' + ws + r'\*' + ws + r'>' + ws + r'\(' + ws + r'const_cast' + ws + r'<' + ws + r'const\s+void' + ws + r'\*' + ws + r'>' + ws + r'\(' + ws + r'v' + ws + r'\.' + ws + r'extract_raw' + ws + r'\(' + ws + r'\)' + ws + r'\)' + ws + r'\)'
+    ex_ptr = ex_ref[len(r'\*' + ws):].replace(r'v' + ws + r'\.' + ws + r'extract_raw', r'v' + ws + r'->' + ws + r'extract_raw')
+
+    def cast_anchor(what, head_rx, acc, ret_rx, fail_rx):
+        m = re.search(head_rx + ws + r'\{' + ws + r'if' + ws + r'\((.*?)\)' + ws + r'\{' + ws + r'return\s*' + ret_rx + ws + r';' + ws + r'\}' + ws + fail_rx + ws + r'\}', h, re.S)
+        if not m:
+            probs.append('anchor not found: %s { if (<type test>) { return <the stored object as const T>; } <type error> }' % what)
+            return
+        cond = re.sub(r'\s+', '', m.group(1))
+        ty = 'v%stype()' % acc
+        if cond not in (ty + '==typeid(T)', 'typeid(T)==' + ty):
+            probs.append('%s: the type test is %r, not the identity of the two std::type_info objects (`%s == typeid(T)`): the model compares types, '
+                         'and two distinct types may share a type_info::name() (internal-linkage types of the same spelling in two translation units)'
+                         % (what, ' '.join(m.group(1).split()), 'v%stype()' % acc))
+        else:
+            C.setdefault('value_cast_test', []).append(cond)
+
+    cast_anchor('value_cast(const ValueStore&)',
+                r'const\s+T' + ws + r'&' + ws + r'value_cast' + ws + r'\(' + ws + r'const\s+ValueStore' + ws + r'&' + ws + r'v' + ws + r',' + ws + r'const\s+T' + ws + r'\*' + ws + r'=' + ws + r'0' + ws + r'\)',
+                '.', ex_ref, r'throw\s+bad_value_cast' + ws + r'\(' + ws + r'\)' + ws + r';')
+    cast_anchor('value_cast(const ValueStore*)',
+                r'const\s+T' + ws + r'\*' + ws + r'value_cast' + ws + r'\(' + ws + r'const\s+ValueStore' + ws + r'\*' + ws + r'v' + ws + r',' + ws + r'const\s+T' + ws + r'\*' + ws + r'=' + ws + r'0' + ws + r'\)',
+                '->', ex_ptr, r'return\s+0' + ws + r';')
+    # the non-const forms only forward to the const ones
+    if not re.search(r'T' + ws + r'&' + ws + r'value_cast' + ws + r'\(' + ws + r'ValueStore' + ws + r'&' + ws + r'v' + ws + r',' + ws + r'const\s+T' + ws + r'\*' + ws + r'p' + ws + r'=' + ws + r'0' + ws + r'\)' + ws + r'\{' + ws
+                     + r'return\s+const_cast' + ws + r'<' + ws + r'T' + ws + r'&' + ws + r'>' + ws + r'\(' + ws + r'value_cast' + ws + r'\(' + ws + r'const_cast' + ws + r'<' + ws + r'const\s+ValueStore' + ws + r'&' + ws + r'>' + ws + r'\(' + ws + r'v' + ws + r'\)' + ws + r',' + ws + r'p' + ws + r'\)' + ws + r'\)' + ws + r';' + ws + r'\}', h):
+        probs.append('anchor not found: value_cast(ValueStore&) forwards to value_cast(const ValueStore&)')
+    if not re.search(r'T' + ws + r'\*' + ws + r'value_cast' + ws + r'\(' + ws + r'ValueStore' + ws + r'\*' + ws + r'v' + ws + r',' + ws + r'const\s+T' + ws + r'\*' + ws + r'p' + ws + r'=' + ws + r'0' + ws + r'\)' + ws + r'\{' + ws
+                     + r'return\s+const_cast' + ws + r'<' + ws + r'T' + ws + r'\*' + ws + r'>' + ws + r'\(' + ws + r'value_cast' + ws + r'\(' + ws + r'const_cast' + ws + r'<' + ws + r'const\s+ValueStore' + ws + r'\*' + ws + r'>' + ws + r'\(' + ws + r'v' + ws + r'\)' + ws + r',' + ws + r'p' + ws + r'\)' + ws + r'\)' + ws + r';' + ws + r'\}', h):
+        probs.append('anchor not found: value_cast(ValueStore*) forwards to value_cast(const ValueStore*)')
+    # type(): the vtable's typeid slot answers with the address of typeid(T)
+    if not re.search(r'const\s+std::type_info' + ws + r'&' + ws + r'ValueStore::type' + ws + r'\(' + ws + r'\)' + ws + r'const' + ws + r'\{' + ws + r'if' + ws + r'\(' + ws + r'!' + ws + r'empty' + ws + r'\(' + ws + r'\)' + ws + r'\)' + ws + r'\{' + ws
+                     + r'void' + ws + r'\*' + ws + r'x' + ws + r';' + ws + r'\(' + ws + r'\*' + ws + r'vptr_' + ws + r'\)' + ws + r'\[' + ws + r'vcall_typeid' + ws + r'\]' + ws + r'\(' + ws + r'0' + ws + r',' + ws + r'&' + ws + r'x' + ws + r'\)' + ws + r';' + ws
+                     + r'return' + ws + r'\*' + ws + r'static_cast' + ws + r'<' + ws + r'const\s+std::type_info' + ws + r'\*' + ws + r'>' + ws + r'\(' + ws + r'x' + ws + r'\)' + ws + r';' + ws + r'\}', c):
+        probs.append('anchor not found: ValueStore::type() { if (!empty()) { void* x; (*vptr_)[vcall_typeid](0, &x); return *static_cast<const std::type_info*>(x); } ... }')
+    if not re.search(r'static\s+void\s+typeinfo' + ws + r'\(' + ws + r'const\s+void' + ws + r'\*' + ws + r',' + ws + r'void' + ws + r'\*\*' + ws + r'out' + ws + r'\)' + ws + r'\{' + ws + r'\*' + ws + r'out' + ws + r'=' + ws
+                     + r'const_cast' + ws + r'<' + ws + r'void' + ws + r'\*' + ws + r'>' + ws + r'\(' + ws + r'static_cast' + ws + r'<' + ws + r'const\s+void' + ws + r'\*' + ws + r'>' + ws + r'\(' + ws + r'&' + ws + r'typeid' + ws + r'\(' + ws + r'T' + ws + r'\)' + ws + r'\)' + ws + r'\)' + ws + r';' + ws + r'\}', d):
+        probs.append('anchor not found: VTable<T>::typeinfo { *out = &typeid(T) }')
     # selector 0 must be the table whose tag says "heap" (0), selector 1 the one that says "in place" (!= 0)
     if len(sel) == 2 and len(tag) == 2:
         t0, t1 = tag.get(sel['0']), tag.get(sel['1'])
